@@ -242,6 +242,8 @@ Definition zero_shdr : shdr_spec :=
 
 Definition nth_sec (s : image_spec) (i : Z) : option (list Z * shdr_spec) :=
   if (0 <=? i) && (i <? n_sections s) then nth_error (i_sections s) (Z.to_nat i) else None.
+Definition nth_seg (s : image_spec) (j : Z) : option phdr_spec :=
+  if (0 <=? j) && (j <? n_segments s) then nth_error (i_segments s) (Z.to_nat j) else None.
 Definition sec0 (s : image_spec) : shdr_spec :=
   match i_sections s with x :: _ => snd x | [] => zero_shdr end.
 
